@@ -194,3 +194,102 @@ Example c18_headers_block_example :
   exists f n st, read_frame fs_new (ser_frame (AHeaders 1 true true None (flat_map ser_repr rs) None) ++ [0;0;0]) = ROk f n st /\
                  f_body f = BMeta None [mkF N_method [71;69;84] false; mkF N_scheme [104;116;116;112] false; mkF N_path [47] false; mkF [120;45;97] [49] false] false.
 Proof. cbn zeta. do 3 eexists. split; vm_compute; reflexivity. Qed.
+
+(* ------------------------------------------------------------------ header blocks over several frames; the sender *)
+From MV Require Import Proofs.HpackStable Proofs.H2Send Proofs.H2FrameMulti.
+
+(* the HPACK representation parser is prefix-stable ... *)
+Theorem c18_hpack_repr_prefix_stable : forall st p e, p <> [] -> parse_repr st p <> HNeedMore ->
+  parse_repr st (p ++ e) = ext_pres (parse_repr st p) e.
+Proof. exact parse_repr_app. Qed.
+Print Assumptions c18_hpack_repr_prefix_stable.
+
+(* ... so the fragments of a valid header block may be cut ANYWHERE (inside integers, strings, Huffman data; empty
+   fragments): feeding them one by one, as readMetaFrame does, yields the fields and the table of the whole block.
+   Bound: the block is not longer than 2*(maxStrLen+8) (or no string limit) - beyond it Decoder.Write's "paranoia"
+   test may refuse a fragmented block that it accepts whole. *)
+Theorem c18_hpack_fragments_decode : forall frags leading st sk rs t' sk',
+  mvalid leading (d_with_save st []) rs sk t' sk' ->
+  flat_map ser_repr rs = d_save st ++ concat frags ->
+  (d_maxstr st = 0 \/ len (d_save st ++ concat frags) <= 2 * (d_maxstr st + 8)) ->
+  (concat frags = [] -> rs = [] /\ d_save st = []) ->
+  exists fb, meta_frags st frags sk = (mkD t' (d_maxstr st) true fb [], sk', WOk).
+Proof. intros frags leading st sk rs t' sk'. apply meta_frags_valid. exact (eq_refl true). Qed.
+Print Assumptions c18_hpack_fragments_decode.
+
+(* c18_headers_block_roundtrip for MULTI-fragment blocks: a HEADERS frame (any padding / priority) followed by any
+   number of CONTINUATION frames whose fragments concatenate to a header block of ANY valid representations is read
+   as one MetaHeadersFrame with exactly the encoded fields; all the frames' bytes are consumed. *)
+Theorem c18_headers_multi_roundtrip : forall st sid es pr pad f0 cs rs t' fs rest sk',
+  fs_last st = 0 ->
+  let a := AHeaders sid es (match cs with [] => true | _ => false end) pr f0 pad in
+  aframe_ok a ->
+  (let '(t, fl, s, p) := aframe_parts a in len p < 16777216 /\ len p <= fs_max st) ->
+  Forall (fun f => len f < 16777216 /\ len f <= fs_max st) cs ->
+  d_save (fs_dec st) = [] -> d_first (fs_dec st) = true ->
+  dt_allowed (d_tab (fs_dec st)) < 2 ^ 32 ->
+  concat (f0 :: cs) = flat_map ser_repr rs -> rs <> [] ->
+  (fs_maxlist st = 0 \/ len (flat_map ser_repr rs) <= 2 * (fs_maxlist st + 8)) ->
+  reprs_shape true rs -> Forall (repr_ok (fs_maxlist st)) rs ->
+  interp_reprs (d_tab (fs_dec st)) rs = Some (t', fs) ->
+  Forall (field_fits (fs_maxlist st)) fs ->
+  sink_run (mkSink (fs_maxlist st) false false false []) fs = Some sk' ->
+  check_pseudos fs [] false false = true ->
+  forall drains,
+  read_frame_gen true true drains st (ser_frame a ++ ser_conts sid cs ++ rest) =
+  ROk (mkFrame (f_hdr (frame_of a)) (BMeta pr fs false)) (len (ser_frame a) + len (ser_conts sid cs))
+      (mkFs 0 (fs_max st) (fs_maxlist st) (mkD t' (fs_maxlist st) true true [])).
+Proof. intros st sid es pr pad f0 cs rs t' fs rest sk'. apply headers_multi_roundtrip. exact (eq_refl true). Qed.
+Print Assumptions c18_headers_multi_roundtrip.
+
+(* The sender (MServerConn.writeHeaders, split at 16384; MClientConn.writeHeaders, split at the peer's
+   SETTINGS_MAX_FRAME_SIZE), with the loop comparison read from the source: for EVERY block and EVERY max frame
+   size >= 1 the fragments concatenate to the block, none is larger than the max frame size, END_HEADERS is set on
+   the last fragment and on no other, a non-empty block yields at least one frame.  (An empty block yields no frame
+   in the code: `for len(block) > 0`; header blocks are never empty - :status / :method - and the server panics
+   on an empty non-trailer block before the loop.) *)
+Theorem c18_header_block_fragmentation : forall block mx, 1 <= mx ->
+  concat (map fst (split_block block mx)) = block /\
+  Forall (fun f => len (fst f) <= mx) (split_block block mx) /\
+  (block <> [] -> flags_ok (split_block block mx) /\ split_block block mx <> []) /\
+  (block = [] -> split_block block mx = []).
+Proof. exact (split_block_correct (eq_refl true)). Qed.
+Print Assumptions c18_header_block_fragmentation.
+
+(* with "last fragment iff remaining < max" a block of exactly k * max bytes is sent without END_HEADERS at all *)
+Theorem c18_header_block_fragmentation_refuted_with_strict_comparison : forall k fuel block mx,
+  1 <= mx -> len block = N.of_nat (S k) * mx -> (length block <= fuel)%nat ->
+  Forall (fun f => snd f = false) (split_block_gen false fuel block mx) /\ split_block_gen false fuel block mx <> [].
+Proof. exact split_strict_unterminated. Qed.
+Print Assumptions c18_header_block_fragmentation_refuted_with_strict_comparison.
+
+(* sender and reader composed: the frames writeHeaders emits for the header block of ANY valid representations,
+   split at ANY max frame size the reader admits, are read back as one MetaHeadersFrame with the encoded fields *)
+Theorem c18_sent_header_block_read_back : forall st sid es mx rs t' fs rest sk',
+  fs_last st = 0 -> sid_ok sid ->
+  1 <= mx -> mx < 16777216 -> mx <= fs_max st ->
+  d_save (fs_dec st) = [] -> d_first (fs_dec st) = true ->
+  dt_allowed (d_tab (fs_dec st)) < 2 ^ 32 ->
+  rs <> [] ->
+  (fs_maxlist st = 0 \/ len (flat_map ser_repr rs) <= 2 * (fs_maxlist st + 8)) ->
+  reprs_shape true rs -> Forall (repr_ok (fs_maxlist st)) rs ->
+  interp_reprs (d_tab (fs_dec st)) rs = Some (t', fs) ->
+  Forall (field_fits (fs_maxlist st)) fs ->
+  sink_run (mkSink (fs_maxlist st) false false false []) fs = Some sk' ->
+  check_pseudos fs [] false false = true ->
+  forall drains,
+  exists hdr,
+  read_frame_gen true true drains st (ser_fragments sid es (split_block (flat_map ser_repr rs) mx) ++ rest) =
+  ROk (mkFrame hdr (BMeta None fs false)) (len (ser_fragments sid es (split_block (flat_map ser_repr rs) mx)))
+      (mkFs 0 (fs_max st) (fs_maxlist st) (mkD t' (fs_maxlist st) true true [])).
+Proof. intros st sid es mx rs t' fs rest sk'. apply sent_block_read_back; exact (eq_refl true). Qed.
+Print Assumptions c18_sent_header_block_read_back.
+
+Example c18_fragmentation_example :
+  map (fun f => (len (fst f), snd f)) (split_block (repeat 7 (N.to_nat 32768)) 16384) = [(16384, false); (16384, true)] /\
+  map (fun f => (len (fst f), snd f)) (split_block_gen false (N.to_nat 40000) (repeat 7 (N.to_nat 32768)) 16384) = [(16384, false); (16384, false)] /\
+  (let rs := [RIndexed 2; RIndexed 6; RIndexed 4; RLitNew KIncr false [120; 45; 97] false [49; 50; 51; 52; 53]] in
+   exists f n st, read_frame fs_new (ser_fragments 1 true (split_block (flat_map ser_repr rs) 4) ++ [0; 0]) = ROk f n st /\
+                  f_body f = BMeta None [mkF N_method [71;69;84] false; mkF N_scheme [104;116;116;112] false; mkF N_path [47] false; mkF [120;45;97] [49;50;51;52;53] false] false /\
+                  n = len (ser_fragments 1 true (split_block (flat_map ser_repr rs) 4))).
+Proof. cbn zeta. split; [vm_compute; reflexivity|]. split; [vm_compute; reflexivity|]. do 3 eexists. repeat split; vm_compute; reflexivity. Qed.
